@@ -133,7 +133,19 @@ pub fn check_data_consistency(
             ));
         }
     }
-    Ok(())
+    // The matching uses one matrix row per course place resp. participant and 32 bit edge weights and labels. The labels are only
+    // guaranteed not to overflow for up to i32::MAX / WEIGHT_OFFSET - 2 rows (and the sizes must not overflow usize).
+    let max_rows = (i32::MAX / crate::caobab::WEIGHT_OFFSET) as usize - 2;
+    let rows = courses
+        .iter()
+        .try_fold(participants.len(), |acc, c| acc.checked_add(c.num_max));
+    match rows {
+        Some(n) if n <= max_rows => Ok(()),
+        _ => Err(format!(
+            "Too many course places and participants (more than {} in total)",
+            max_rows
+        )),
+    }
 }
 
 /// Assert that a given courses/participants data structure is consistent (in terms of object's
